@@ -1,5 +1,6 @@
 import PV.Lemmas.IPCSysV
 import PV.Lemmas.IPCSysVInv
+import PV.Lemmas.IPCSysVNew
 /-!
 # C06, System V variant — named semaphore (`psemaphore-sysv.c` + key files of `pipc.c` over `PV.SysV.OS`)
 
@@ -130,6 +131,77 @@ theorem acquire_eintr_erased (g : G) (t : Tid) (h : Hid) (script : List Nat) :
 theorem release_eintr_erased (g : G) (t : Tid) (h : Hid) (script : List Nat) :
     (g.call t (.rel h) script).Same (g.call t (.rel h) []) :=
   eintr_transparent g t (.rel h) script
+
+/-! ## 3–4. OPEN ignores the initial value, CREATE sets exactly the given value — for every value and every state
+   satisfying the invariant of §1 (per system call of the `p_semaphore_new` in flight) -/
+
+/-- what one step of a `p_semaphore_new` in flight leads to -/
+def NewOutcome (f : KeyFile) (id : SemId) (m : Mode) (g' : G) (t : Tid) (hid : Hid) (p : Pid) (init : Nat) : Prop :=
+  (∃ s', g'.calls t = some (.semNew hid s') ∧ s'.h.file = f ∧ s'.h.init = init ∧
+      (s'.opening m ∨ (m = .create ∧ s'.pc = .cSetval ∧ s'.api = .new ∧ s'.h.hdl = some id))) ∨
+  (m = .open ∧ ∃ h, g'.calls t = none ∧ g'.hs hid = some (p, .sem h) ∧ g'.ret t = some (.sem h) ∧ h.hdl = some id ∧ h.file = f)
+
+theorem new_step (f : KeyFile) (i : Ino) (id : SemId) (m : Mode) (g : G) (t : Tid) (intr : Bool) (hid : Hid) (s : SemSt)
+    (hi : Inv f i id g) (hc : g.calls t = some (.semNew hid s)) (hf : s.h.file = f) (ho : s.opening m) :
+    (g.step t intr).os.sems id = g.os.sems id ∧ NewOutcome f id m (g.step t intr) t hid (g.pidOf t) s.h.init := by
+  have hs := new_step_value (g.pidOf t) intr 0 s g.os f i id m hi.bound hf (hi.calls t _ hc) ho
+  refine ⟨by rw [step_os g t intr _ hc]; exact hs.1, ?_⟩
+  have h2 := hs.2
+  cases hr : s.after (sysStep (g.pidOf t) intr s.next g.os 0).2 with
+  | cont s' =>
+    rw [hr] at h2
+    left
+    refine ⟨s', ?_, h2.1, h2.2.1, h2.2.2.2⟩
+    simp [G.step, hc, Call.next, Call.after, Call.name, hr, G.setCall]
+  | done x =>
+    obtain ⟨h, e⟩ := x
+    rw [hr] at h2
+    obtain ⟨hm, he, hh, hfile⟩ := h2
+    subst he
+    right
+    refine ⟨hm, h, ?_, ?_, ?_, hh, hfile⟩ <;>
+      simp [G.step, hc, Call.next, Call.after, Call.name, hr, G.setCall, G.setRet, G.setHandle]
+
+
+
+/-- `p_semaphore_new (name_n, init, mode)` started by an idle thread of a live process on a free slot is a machine in
+    its `opening` phase on key file `.sem n` -/
+theorem start_new_opening (g : G) (t : Tid) (hid : Hid) (n init : Nat) (m : Mode)
+    (hal : (g.os.procs (g.pidOf t)).alive = true) (hidle : g.calls t = none) (hh : g.hs hid = none) :
+    ∃ s, (g.start t (.newSem hid n init m)).calls t = some (.semNew hid s) ∧ s.h.file = .sem n ∧ s.h.init = init ∧ s.opening m ∧
+      (g.start t (.newSem hid n init m)).os = g.os := by
+  refine ⟨{ api := .new, h := { file := .sem n, hdl := some 0, mode := m, init := init }, pc := .cOpen }, ?_, rfl, rfl, ⟨rfl, rfl, Or.inl rfl⟩, ?_⟩ <;>
+    simp [G.start, hal, hidle, hh, G.setCall]
+
+/-- ∀-version: OPEN on an existing name ignores the initial value.  In ANY state satisfying the invariant (name bound to
+    the live set `id`), every system call of an OPEN-mode `p_semaphore_new` of that name in flight — for any initial value
+    `s.h.init`, interrupted or not, whatever the other threads and processes did before — leaves the set (value, SEM_UNDO
+    adjustments) exactly as it was; the call either goes on in the same phase or returns a struct with `sem_hdl = id`. -/
+theorem open_ignores_init_on_existing (f : KeyFile) (i : Ino) (id : SemId) (g : G) (t : Tid) (intr : Bool) (hid : Hid) (s : SemSt)
+    (hi : Inv f i id g) (hc : g.calls t = some (.semNew hid s)) (hf : s.h.file = f) (ho : s.opening .open) :
+    (g.step t intr).os.sems id = g.os.sems id ∧ NewOutcome f id .open (g.step t intr) t hid (g.pidOf t) s.h.init :=
+  new_step f i id .open g t intr hid s hi hc hf ho
+
+/-- ∀-version: CREATE on an existing name sets exactly the given value.  (a) Before its SETVAL a CREATE-mode
+    `p_semaphore_new` of the bound name leaves the set alone and arrives at the SETVAL with `sem_hdl = id` … -/
+theorem create_reaches_setval (f : KeyFile) (i : Ino) (id : SemId) (g : G) (t : Tid) (intr : Bool) (hid : Hid) (s : SemSt)
+    (hi : Inv f i id g) (hc : g.calls t = some (.semNew hid s)) (hf : s.h.file = f) (ho : s.opening .create) :
+    (g.step t intr).os.sems id = g.os.sems id ∧ NewOutcome f id .create (g.step t intr) t hid (g.pidOf t) s.h.init :=
+  new_step f i id .create g t intr hid s hi hc hf ho
+
+/-- … (b) and the SETVAL step gives the set EXACTLY the value handed to `p_semaphore_new` (any value up to SEMVMX), on the
+    same set `id` that every other handle of the name uses, clears the SEM_UNDO adjustments, and returns the struct. -/
+theorem create_sets_value (f : KeyFile) (i : Ino) (id : SemId) (g : G) (t : Tid) (intr : Bool) (hid : Hid) (s : SemSt)
+    (hi : Inv f i id g) (hc : g.calls t = some (.semNew hid s)) (hpc : s.pc = .cSetval) (ha : s.api = .new)
+    (hh : s.h.hdl = some id) (hv : s.h.init ≤ SEMVMX) :
+    ((g.step t intr).os.sems id).value = s.h.init ∧ ((g.step t intr).os.sems id).alive = true ∧
+    (∀ q, ((g.step t intr).os.sems id).adj q = 0) ∧
+    (g.step t intr).calls t = none ∧ (g.step t intr).hs hid = some (g.pidOf t, .sem s.h) ∧ (g.step t intr).ret t = some (.sem s.h) := by
+  have hs := setval_step (g.pidOf t) intr 0 s g.os f i id hi.bound hpc ha hh hv
+  rw [step_os g t intr _ hc]
+  refine ⟨hs.1, hs.2.1, hs.2.2.1, ?_, ?_, ?_⟩ <;>
+    simp [G.step, hc, Call.next, Call.after, Call.name, hs.2.2.2, G.setCall, G.setRet, G.setHandle]
+
 
 /-! ## 3–6. OPEN / CREATE / owner free / crash recovery — ENUMERATED FINITE SCOPE (evaluation of the executable model,
    `decide`), clearly not ∀-statements: initial values 0..3, fresh machine (with and without inode reuse), one name -/
